@@ -40,6 +40,14 @@ fn snapshot(dir: &Path) -> BTreeMap<Vec<u8>, String> {
     out
 }
 
+/// a name that can be written on a command line (the arguments are Rust strings)
+fn pick_utf8(rng: &mut crate::rng::Rng, names: &[Vec<u8>]) -> Vec<u8> {
+    loop {
+        let n = rng.pick(names).clone();
+        if std::str::from_utf8(&n).is_ok() { return n; }
+    }
+}
+
 pub fn run_prop(ctx: &Ctx, sink: &mut Sink) {
     let mut rng = Rng::new(ctx.seed).fork(10);
     let n = if ctx.thorough { 6000 } else { 400 };
@@ -50,6 +58,8 @@ pub fn run_prop(ctx: &Ctx, sink: &mut Sink) {
         // names around the special case for the starting point `.`: ending in a dot, starting with one
         let mut names = simple_names();
         names.extend([b"e.".to_vec(), b".h".to_vec(), b"v1..".to_vec(), b"...".to_vec()]);
+        // a name that is not valid UTF-8 beside the name its lossy decoding gives
+        names.extend([b"log\xff".to_vec(), b"log\xef\xbf\xbd".to_vec(), b"caf\xe9".to_vec()]);
         let sc = build_scene(ctx, &mut rng, names, flag == "P" && i % 3 != 0);
         if flag != "P" {
             let _ = std::os::unix::fs::symlink("../plain", sc.dir.join("r0/zlf"));
@@ -87,12 +97,12 @@ pub fn run_prop(ctx: &Ctx, sink: &mut Sink) {
         if rng.chance(1, 4) { toks.push(format!("mindepth:{}", rng.range(1, 2))); }
         if rng.chance(1, 5) { toks.push(format!("maxdepth:{}", rng.range(1, 3))); }
         match rng.below(8) {
-            0 => toks.push(name_tok(&rng.pick(&sc.names).clone())),
+            0 => toks.push(name_tok(&pick_utf8(&mut rng, &sc.names))),
             1 => toks.push("type:f".into()),
             2 => toks.push("type:d".into()),
             3 => { toks.push("bang".into()); toks.push("type:d".into()); }
-            4 => { toks.extend(["lp".to_string(), name_tok(&rng.pick(&sc.names).clone()), "o".into(), "type:l".into(), "rp".into()]); }
-            5 => { toks.push("bang".into()); toks.push(name_tok(&rng.pick(&sc.names).clone())); }
+            4 => { toks.extend(["lp".to_string(), name_tok(&pick_utf8(&mut rng, &sc.names)), "o".into(), "type:l".into(), "rp".into()]); }
+            5 => { toks.push("bang".into()); toks.push(name_tok(&pick_utf8(&mut rng, &sc.names))); }
             6 => toks.push("type:l".into()),
             _ => {}
         }
